@@ -375,6 +375,7 @@ type FuncSpec struct {
 	LoopInv   map[int][]*Clause
 	AtCall    []*Clause // asserted at matching call sites
 	NoPanic   *Clause   // labels for implicit safety obligations
+	CtxAware  *Clause   // every blocking channel operation must have a ctx.Done() alternative
 	Modifies  []string  // heap arrays a caller must havoc ("*" = everything)
 	HasMod    bool
 	MakeChans []GhostMakeChan
@@ -615,6 +616,11 @@ func (sp *Specs) readFile(path string) error {
 				return fail("nopanic outside func")
 			}
 			cur.NoPanic = &Clause{Kind: "nopanic", Labels: labels, File: path, Line: l.n, Func: cur.Key}
+		case "ctxaware":
+			if cur == nil {
+				return fail("ctxaware outside func")
+			}
+			cur.CtxAware = &Clause{Kind: "ctxaware", Labels: labels, File: path, Line: l.n, Func: cur.Key}
 		case "modifies":
 			if cur == nil {
 				return fail("modifies outside func")
